@@ -28,6 +28,7 @@ Wraps == {<<>>, <<"ptr">>, <<"iface", "ptr">>}
 
 PlainScalars ==
   {Null, Bool(TRUE), Bool(FALSE), Num(R_0), Num(R_1), Num(R_1h), Num(R_2), Num(R_2p53), Num(R_2p53p1), Num(R_i64max),
+   Num(R_m1), Num(R_m1h), Num(R_m128), Num(R_i64min), Num(R_m2p53),
    Num(R_2p63), Num(R_u64max), Num(R_p3), Num(R_p1p2), Str("1"), Str("a"), Str(""), Str("U_e1"), Str("U_e2"), Str("0")}
 PlainContainers ==
   {EmptyArr, Arr(<<Num(R_1)>>), Arr(<<Num(R_1), Num(R_2)>>), Arr(<<Num(R_2), Num(R_1)>>), Arr(<<Arr(<<Num(R_1)>>)>>),
@@ -40,14 +41,14 @@ EQPool(z) ==
   \cup UNION {WithWraps(RepsOf(v, NR2, AR, OR), {<<>>, <<"ptr">>}) : v \in PlainContainers}
 
 \* ------------------------------------------------------------ uniqueItems / enum / const
-UAElems == {Num(R_1), Num(R_2), Str("1"), Null, Bool(TRUE), Arr(<<Num(R_1)>>), Obj([a |-> Num(R_1)])}
-               \cup (IF K >= 2 THEN {Str("a"), Obj([a |-> Num(R_1), b |-> Num(R_2)])} ELSE {})
+UAElems == {Num(R_1), Num(R_m1), Str("1"), Null, Bool(TRUE), Arr(<<Num(R_m1)>>), Obj([a |-> Num(R_1)])}
+               \cup (IF K >= 2 THEN {Str("a"), Num(R_2), Obj([a |-> Num(R_1), b |-> Num(R_2)])} ELSE {})
 UAPlain(z) == {Arr(e) : e \in UNION {[1..n -> UAElems] : n \in 0..(IF K >= 2 THEN 3 ELSE 2)}}
               \cup {Arr(<<Num(R_1), Num(R_2), Num(R_0), x, Num(R_1h)>>) : x \in {Num(R_1), Num(R_4), Num(R_0)}}
-UAReps(v) == RepsOf(v, IF K >= 2 THEN {"float64", "int", "jsonNumber"} ELSE {"float64", "int8"}, {"any", "typed", "array"}, {"any", "typed"})
+UAReps(v) == RepsOf(v, IF K >= 2 THEN {"float64", "int", "jsonNumber"} ELSE {"float64", "int8", "jsonNumber"}, {"any", "typed", "array"}, {"any", "typed"})
 UASchemas == <<[uniqueItems |-> TRUE],
-               [enum |-> <<Num(R_1), Str("a"), Arr(<<Num(R_1)>>), Obj([a |-> Num(R_1)]), Arr(<<Num(R_1), Num(R_2)>>), Null>>],
-               [const |-> Arr(<<Num(R_1)>>)], [const |-> Arr(<<Num(R_1), Num(R_1)>>)],
+               [enum |-> <<Num(R_1), Str("a"), Arr(<<Num(R_m1)>>), Obj([a |-> Num(R_1)]), Arr(<<Num(R_1), Num(R_m1)>>), Null>>],
+               [const |-> Arr(<<Num(R_m1)>>)], [const |-> Arr(<<Num(R_1), Num(R_1)>>)],
                [const |-> Arr(<<Obj([a |-> Num(R_1)])>>)], [enum |-> <<>>], [const |-> Null],
                [items |-> [enum |-> <<Num(R_1), Obj([a |-> Num(R_1), b |-> Num(R_2)])>>]],
                [items |-> [const |-> Str("1")]]>>
